@@ -365,4 +365,85 @@ example : ("PLUS" == "ASSIGN" || "PLUS" == "DEFINE" || "PLUS" == "AND" || "PLUS"
 example : ({} : St).cfg.deadlineAfter = none := rfl
 example : outcome (evalI 1 (.int 7)) {} = .ok (.int 7) := rfl
 
+/-- `object.Value` of anything but a reference is the value itself, no state change -/
+theorem C01.valueOf_nonref (o : Obj) (h : ∀ e n, o ≠ .ref e n) : valueOf o = pure o := by
+  cases o <;> first | rfl | exact absurd rfl (h _ _)
+
+/-! ## 3. `if` -/
+
+theorem C01.evalI_if (f : Nat) (c cons alt : Node) :
+    evalI (f + 1) (.ifE c cons alt) = C15.enter (evalIf f c cons alt) := by
+  evalI_step
+
+/-- `evalIfExpression`: condition (dereferenced), then exactly one branch -/
+theorem C01.evalIf_eq (f : Nat) (c cons alt : Node) :
+    evalIf (f + 1) c cons alt = (do
+      let condition ← valueOf (← evalI f c)
+      match condition with
+      | .bool true => evalI f cons
+      | .bool false =>
+        match alt with
+        | .none => pure .null
+        | _ => evalI f alt
+      | _ => pure (err "condition is not a boolean")) := by
+  cases alt <;> (rw [evalIf] <;> first | rfl | (intro h; cases h))
+
+/-- condition true: the consequence, evaluated in the state the condition left; the alternative is not evaluated -/
+theorem C01.if_true (f : Nat) (c cons alt : Node) (st : St) (hd : st.cfg.deadlineAfter = none)
+    (hc : outcome (evalI f c) (C15.bump st) = .ok (.bool true)) :
+    SameRun (evalI (f + 2) (.ifE c cons alt)) st (evalI f cons) (stateAfter (evalI f c) (C15.bump st)) := by
+  rw [C01.evalI_if, C01.evalIf_eq]
+  refine (C01.sameRun_enter _ st hd).trans ?_
+  refine (C01.sameRun_bind_ok _ _ _ _ hc).trans ?_
+  rw [C01.valueOf_nonref _ (fun _ _ h' => by cases h'), pure_bind]
+  exact SameRun.refl _ _
+
+/-- condition false, with an `else`: the alternative, evaluated in the state the condition left -/
+theorem C01.if_false_else (f : Nat) (c cons alt : Node) (st : St) (hd : st.cfg.deadlineAfter = none)
+    (hc : outcome (evalI f c) (C15.bump st) = .ok (.bool false)) (halt : alt = .none → False) :
+    SameRun (evalI (f + 2) (.ifE c cons alt)) st (evalI f alt) (stateAfter (evalI f c) (C15.bump st)) := by
+  rw [C01.evalI_if, C01.evalIf_eq]
+  refine (C01.sameRun_enter _ st hd).trans ?_
+  refine (C01.sameRun_bind_ok _ _ _ _ hc).trans ?_
+  rw [C01.valueOf_nonref _ (fun _ _ h => by cases h), pure_bind]
+  cases alt <;> first | exact SameRun.refl _ _ | exact (halt rfl).elim
+
+/-- condition false, no `else`: nil, in the state the condition left -/
+theorem C01.if_false_noelse (f : Nat) (c cons : Node) (st : St) (hd : st.cfg.deadlineAfter = none)
+    (hc : outcome (evalI f c) (C15.bump st) = .ok (.bool false)) :
+    outcome (evalI (f + 2) (.ifE c cons .none)) st = .ok .null
+    ∧ stateAfter (evalI (f + 2) (.ifE c cons .none)) st = stateAfter (evalI f c) (C15.bump st) := by
+  change SameRun _ st (pure Obj.null : M Obj) _
+  rw [C01.evalI_if, C01.evalIf_eq]
+  refine (C01.sameRun_enter _ st hd).trans ?_
+  refine (C01.sameRun_bind_ok _ _ _ _ hc).trans ?_
+  rw [C01.valueOf_nonref _ (fun _ _ h => by cases h), pure_bind]
+  exact ⟨rfl, rfl⟩
+
+/-- a condition that is not a boolean (an integer, nil, a string, even an error value) is the error
+"condition is not a boolean" (eval.go `evalIfExpression` default case); no branch is evaluated -/
+theorem C01.if_nonbool (f : Nat) (c cons alt : Node) (st : St) (cv : Obj) (hd : st.cfg.deadlineAfter = none)
+    (hc : outcome (evalI f c) (C15.bump st) = .ok cv) (hnb : ∀ b, cv ≠ .bool b) (hnr : ∀ e n, cv ≠ .ref e n) :
+    outcome (evalI (f + 2) (.ifE c cons alt)) st = .ok (err "condition is not a boolean")
+    ∧ stateAfter (evalI (f + 2) (.ifE c cons alt)) st = stateAfter (evalI f c) (C15.bump st) := by
+  change SameRun _ st (pure (err "condition is not a boolean") : M Obj) _
+  rw [C01.evalI_if, C01.evalIf_eq]
+  refine (C01.sameRun_enter _ st hd).trans ?_
+  refine (C01.sameRun_bind_ok _ _ _ _ hc).trans ?_
+  rw [C01.valueOf_nonref _ hnr, pure_bind]
+  cases cv <;> first | exact ⟨rfl, rfl⟩ | exact absurd rfl (hnb _) 
+
+/-- the condition stopped abnormally: no branch is evaluated -/
+theorem C01.if_stop (f : Nat) (c cons alt : Node) (st : St) (e : Stop) (hd : st.cfg.deadlineAfter = none)
+    (hc : outcome (evalI f c) (C15.bump st) = .error e) :
+    outcome (evalI (f + 2) (.ifE c cons alt)) st = .error e
+    ∧ stateAfter (evalI (f + 2) (.ifE c cons alt)) st = stateAfter (evalI f c) (C15.bump st) := by
+  rw [C01.evalI_if, C01.evalIf_eq, C15.outcome_enter _ _ hd, C15.stateAfter_enter _ _ hd]
+  exact C01.bind_err _ _ _ e hc
+
+example : outcome (evalI 1 (.bool true)) (C15.bump {}) = .ok (.bool true) := rfl
+example : outcome (evalI 3 (.ifE (.bool true) (.int 1) (.int 2))) {} = .ok (.int 1) := rfl
+example : outcome (evalI 3 (.ifE (.bool false) (.int 1) (.int 2))) {} = .ok (.int 2) := rfl
+example : outcome (evalI 3 (.ifE (.int 5) (.int 1) (.int 2))) {} = .ok (err "condition is not a boolean") := rfl
+
 end Grol.E
